@@ -1,4 +1,5 @@
 import Proofs.Machine.BodyOrder
+import Proofs.Machine.BodyText
 /-!
 C01 — every hunk line is shown exactly once, in order, with its text intact (unified view).
 
@@ -124,10 +125,27 @@ theorem hunk_line_shown_exactly_once {cfg : Cfg} {pre post : List L} {l : L} {mi
     ((m.out.filter (fun r => isBody r.kind)).map (·.src)).count pre.length = 1 :=
   run_hunk_line_exactly_once hmc ei hsrc hst hun hb hc hsub e
 
+/-- **`hunk_line_text_intact`** (whole runs): … and that one row is `expectedRow`: its kind is the
+one the marker column says (`-` removed, `+` added, blank unchanged) and its text is the input line
+with the marker column removed (kept in front when markers are requested) and tabs expanded to the
+configured width (`prepare`, see `prepare_text`) — nothing dropped, merged or otherwise altered,
+whatever precedes and follows the line, for every configuration of the model. -/
+theorem hunk_line_text_intact {cfg : Cfg} {pre post : List L} {l : L} {mi m : M}
+    (hmc : ∀ x ∈ pre ++ l :: post, startsWith x.text Generated.Markers.mcBegin = false)
+    (ei : runFrom cfg {} pre = .ok mi) (hsrc : mi.source = .gitDiff) (hst : isHunkState mi.st = true)
+    (hdt : hunkDiffType mi.st = some .unified) (hb : firstIs l isMarker) (hc : l.commitRe = false)
+    (hsub : l.submodule = none) (e : run cfg (pre ++ l :: post) = .ok m) :
+    (m.out.filter (fun r => isBody r.kind)).filter (fun r => r.src = pre.length) = [expectedRow cfg l pre.length] :=
+  run_hunk_line_row hmc ei hsrc hst hdt hb hc hsub e
+
 /-- a concrete run meeting the hypotheses: line 5 (`-old`) is met in a hunk state of a git diff -/
 def mkL (s : String) : L :=
   { raw := s.toList, text := s.toList, graphemes := s.toList.map (fun c => [c]),
     commitRe := false, blame := false, grep := 0, submodule := none }
+
+/-- what `expectedRow` says for a removed line with a tab, markers dropped / kept -/
+example : expectedRow {} (mkL "-a\tb") 7 = { kind := .minus, text := "a        b".toList, src := 7 } := by decide
+example : expectedRow { keepMarkers := true } (mkL "+x") 3 = { kind := .plus, text := "+x".toList, src := 3 } := by decide
 
 def samplePre : List L :=
   ["diff --git a/x b/x", "--- a/x", "+++ b/x", "@@ -1,2 +1,2 @@ fn f()", " ctx"].map mkL
@@ -136,6 +154,9 @@ example : (match runFrom {} {} samplePre with
     | .ok mi => mi.source == .gitDiff && isHunkState mi.st && (hunkCombinedParents mi.st).isNone
     | .error _ => false) = true := by decide
 example : firstIs (mkL "-old") isMarker := ⟨'-', "old".toList, rfl, rfl⟩
+example : (match runFrom {} {} samplePre with
+    | .ok mi => hunkDiffType mi.st == some .unified
+    | .error _ => false) = true := by decide
 example : (match run {} (samplePre ++ mkL "-old" :: [mkL "+new", mkL "diff --git a/y b/y"]) with
     | .ok m => (m.out.filter (fun r => isBody r.kind)).map (·.src) == [4, 5, 6]
     | .error _ => false) = true := by decide
